@@ -144,13 +144,7 @@ class Model:
                 self.meta[n] = dict(self.meta[q])
 
 
-ACTIONS = [
-    ("set", "d", "F"), ("set", "d", "I"), ("set", "g", "D"), ("set", "g/e", "F"), ("set", "g/e", "I"),
-    ("del", "d", "F"), ("del", "d", "I"), ("del", "g/e", "I"), ("del", "g", "D"), ("set2", "d", "F"),
-    ("rm", "d"), ("rm", "g"), ("cp", "d", "d2"), ("cp", "g", "g2"), ("mv", "d", "g/m"), ("mv", "g", "h"),
-    ("cp_nometa", "d", "d3"), ("cp_nometa", "g", "g3"), ("reopen",), ("boundary",), ("set_unknown", "d"), ("keep", "g/e", "F"),
-    ("rm", "g/e"), ("mk", "n"), ("set", "g", "F"), ("del", "g/e", "F"),
-]
+from vt.contactions import ACTIONS  # noqa: E402
 
 
 def do_action(mc, md, drv, act):
@@ -434,6 +428,7 @@ def seq(a1: int, a2: int, a3: int, a4: int) -> bool:
                 acts.append(c)
                 break
     reach()
+    P_.sample({"driver": SEL.get("drv", "h5"), "actions": [list(ACTIONS[a]) for a in acts]})
     return P_.native_call("vt.harness.cont", "run_seq_idx", SEL.get("drv", "h5"), acts)
 
 
